@@ -15,6 +15,7 @@ RULE = ("every op form of the tensor and nn catalogues with operands stored as p
         "bystander graphs; every kernel call is wrapped by an argument-mutation sanitizer that names the kernel. distinct key = (op, form, "
         "storage class, argclass); non-trivial = an operand is a non-contiguous or shared-base view, or the case includes follow-up events")
 RULE += (" Added after the seeded rounds: tensor-level snapshots (the array an operand tensor holds afterwards, its dtype); inputs whose dtype differs from the layer's parameters, integer / bool targets; an earlier result is not rewritten by a later call on other values; eval-mode batch norm never writes its buffers (toggled tracking, fresh module, repeated calls); deep copies own data and gradient buffers.")
+RULE += (" Round 6 / reach monitor: operands on the boundary of the domain (exact zeros for sqrt / log / powers / division); the op's result unchanged by backward; functional inference-mode batch norm with one or both statistics; upstream gradients whose shape is not exactly the root's (refused or accepted: the caller's tensor keeps shape and bytes).")
 ASSUMPTIONS = ["aliasing without a write (a result sharing memory with an operand, e.g. reshape) is recorded as information, never as a violation",
                "bit-identical repeat is asserted in one process with BLAS pinned to one thread"]
 SHARD_TIMEOUT = {"quick": 900, "thorough": 3600}
